@@ -43,15 +43,21 @@ RULE = ("a case is a whole operation history on two objects a,b (plus an optiona
         "copy/move assignment, copy/move construction, self copy/move, assignment from a temporary, optional<U> source engaged or not "
         "x converting copy/move assignment; every history of depth <= 2 for 10 flag sets (thorough: all), random depth 3..8; printed: "
         "the static triviality traits of the alternatives and of the wrapper, states, temporaries, the event sequence of every step "
-        "and of the final destruction. "
+        "and of the final destruction. Families vor.<T><U>: value_or of optional<T> / expected<T,int> with a fallback of ANOTHER arithmetic type "
+        "(T in short,int,unsigned,long long,float,double x U in bool,signed char,short,int,unsigned,long long,float,double): engaged with every "
+        "boundary value of T (around the powers of two where a narrower or floating type loses digits) x 6 (thorough: all) fallback values, "
+        "disengaged with every boundary fallback whose conversion to T is defined, random 2^k+offset pairs; 12 results per wrapper (4 value "
+        "categories of the object x 3 of the fallback) + the object afterwards. "
         "non-trivial = distinct case line with impl outcome ok and at least one step (or a dispatcher case)")
 
 TRUSTED_BASE = ["reference leg: libstdc++ 12 std::variant / std::optional / std::expected (-std=c++2b) on the same histories",
                 "reference for optional<T&> (not in libstdc++ 12): a hand-written pointer cell per P2988",
                 "reference for expected::and_then/or_else (not in libstdc++ 12): [expected.object.monadic] written out over std::expected",
                 "Tracked/Tracked2 instrumented element types (props/C07/c07_types.hpp), -fno-lifetime-dse so that the destructor's poison store is kept",
+                "vor.* families: floating values are exchanged as twice their value (props/C07/c07_vo.hpp dec/put, exact for the generated multiples of 1/2)",
                 "Sm<F> element types with conditionally trivial special members (props/C07/c07_sm.hpp, P0848 requires-clauses) and their global event log"]
-ASSUMPTIONS = ["LP64; char is signed; g++ 12 overload resolution and narrowing rules as the reference for the alternative selection"]
+ASSUMPTIONS = ["IEEE-754 binary32/binary64 with round-to-nearest-even for the arithmetic conversions of the vor.* families (TypesVo.vo_conv)",
+               "LP64; char is signed; g++ 12 overload resolution and narrowing rules as the reference for the alternative selection"]
 
 # type ids shared with harness and Coq: 0 bool 1 char 2 short 3 int 4 long 5 float 6 double 7 Tracked 8 Tracked2
 # 10 char const* (source only) 11 Str (class constructible from char const*)
